@@ -298,6 +298,23 @@ def sc_dist(inp, rec):
                         except Exception as e:
                             rec.check(False, case, "explicit (positional) parameters = constructed instance", "raised " + last_line(e), inp)
 
+    # ---- parameters given as Python / NumPy integers (whole-number values) ----------------------------------------
+    if ref_res and all(float(v).is_integer() for v in th.values()):
+        for k in pn:
+            mixed = {kk: (alt[kk] if kk == k else th[kk]) for kk in pn}
+            if fam.name == "LogNormalNormFit":
+                continue  # its two parameters have to be passed together
+            for form, conv in (("int", int), ("np.int64", np.int64), ("int-array", lambda v: np.array([int(v)] * len(np.atleast_1d(x))))):
+                for m in METHODS:
+                    case = f"{base}/explicit.{k}.{m}.{form}"
+                    clause = "explicit parameter values give exactly the result of an instance constructed with them (whole numbers given as integers)"
+                    try:
+                        got = np.asarray(getattr(fam.make(mixed), m)(xs_m[m], **{k: conv(th[k])}), dtype=float)
+                        rec.check(got.shape == ref_res[m].shape and np.allclose(got, ref_res[m], rtol=1e-12, atol=0, equal_nan=False), case, clause,
+                                  lambda: f"D({mixed}).{m}(.., {k}={conv(th[k])!r}) = {got.ravel()[:3]!r}... but D({th}).{m}(..) = {ref_res[m].ravel()[:3]!r}...", inp)
+                    except Exception as e:
+                        rec.check(False, case, clause, "raised " + last_line(e), inp)
+
     # ---- argument kinds ------------------------------------------------------------------------------------
     def kinds():
         for m in METHODS:
@@ -357,6 +374,12 @@ def run(tier, seed):
         for i in range(n_rand):
             th = fam.wide(rng)
             sc_dist({"kind": "dist", "family": name, "label": "rand", "theta": th}, rec)
+        # whole-number parameter vector (also passed as int / np.int64 / integer arrays)
+        for base_v in (2, 3):
+            th_i = {p_: float(base_v if "loc" not in fam.roles.get(p_, "") else 1) for p_ in fam.pnames}
+            if fam.admissible(th_i):
+                sc_dist({"kind": "dist", "family": name, "label": f"whole{base_v}", "theta": th_i}, rec)
+                break
     return rec.result()
 
 
